@@ -198,8 +198,18 @@ def run_solve(case, out):
     if case["events"] is not None:
         evs = [make_event(e) for e in case["events"]]
         kw["events"] = evs if case["events_as_list"] else evs[0]
-    if case["jac"] == "callable": kw["jac"] = jac
-    elif case["jac"] == "const": kw["jac"] = cj
+    # the Jacobian in the memory layouts NumPy users hand over: C order, Fortran order, a transposed view, a strided view
+    def layout(J):
+        J = np.array(J, dtype=float)
+        k = (case["id"] // 2) % 4
+        if k == 1: return np.asfortranarray(J)
+        if k == 2: return np.ascontiguousarray(J.T).T
+        if k == 3:
+            big = np.zeros((J.shape[0], 2 * J.shape[1])); big[:, ::2] = J
+            return big[:, ::2]
+        return J
+    if case["jac"] == "callable": kw["jac"] = (lambda t, y, *a, **k: layout(jac(t, y, *a, **k)))
+    elif case["jac"] == "const": kw["jac"] = layout(cj)
     if case["args"]: kw["args"] = cs
     y0a = np.array(y0) if case["id"] % 2 == 0 else list(y0)
     span = (f(case["x0"]), f(case["xend"])) if case["id"] % 3 else [f(case["x0"]), f(case["xend"])]
